@@ -3,12 +3,13 @@ from ..sqlgen import *  # noqa
 from ..qcheck import mk_case, run_cases
 from ..common import dec_val
 
+FACTS = True
 MODULE = "Genql.Properties.C02"
-LEAN_TARGETS = [MODULE, "Genql.Properties.C02Selectors"]
+LEAN_TARGETS = [MODULE, "Genql.Properties.C02Selectors", "Genql.Obligations.C01"]
 THEOREMS = ["Genql.C02." + t for t in [
     "select_length", "select_row_local", "select_rowwise", "select_keys", "evalSel_frame", "select_values",
     "missing_is_null", "binop_null", "select_no_marker", "select_plain",
-    "selc_eval", "selc_error", "selc_keys_eq_col", "tableSel_keys_eq_table"]]
+    "selc_eval", "selc_error", "selc_keys_eq_col", "tableSel_keys_eq_table"]] + ["Genql.Obligations.C01.binary_cases"]
 TRUSTED = ["IEEE-754 arithmetic (Lean Float in the driver, opaque to the kernel)", "sqlparser (query text -> AST)"]
 RULE = ("random tables with nested objects, NULLs and missing keys x select lists of 1-6 items (columns, nested paths, "
         "aliases, duplicates, *, expression trees over all 11 binary and 3 unary operators, CASE with/without ELSE); plus "
